@@ -14,6 +14,10 @@ Oracle: models/cli_spec.py (written from the help text, no tdda code, no
 argparse) turns the command line into (verdict, files, library keywords);
 the reference result is the library called directly (discover_df / verify_df
 / detect_df) with those keywords on the frame loaded from the same file.
+
+E3 (layers history2 / history3): the same observation after one or two other
+commands have run in the same process on the same file; differential clause:
+what ran before does not change the result.
 """
 import contextlib
 import csv
@@ -152,6 +156,49 @@ def tight_constraints(tid):
     return {'fields': fields}
 
 
+# Constraint sets that did NOT come from the file itself (another extract, a
+# hand-edited .tdda): every column is declared with the SAME type `kind`,
+# whatever its dtype is.  cons = 'ty:<kind>:<variant>'.  '+' = a type list.
+TYPE_KINDS = ['bool', 'int', 'real', 'string', 'date', 'int+real']
+TYPE_VARIANTS = ['plain', 'limits']
+
+
+def retyped_constraints(tid, kind, variant):
+    """type `kind` declared for every column; variant 'limits' adds the
+    column's own numeric min / max (int limits for whole-number kinds, real
+    ones for float columns), a null limit and, for a declared string, length
+    limits and allowed values (text of the column's first two values)."""
+    fields = {}
+    for name, ckind, vals in TABLE[tid]:
+        c = {'type': kind.split('+') if '+' in kind else kind}
+        if variant == 'limits':
+            nn = [v for v in vals if v is not None]
+            if ckind in ('int', 'Int64', 'float'):
+                nums = [float(v) if ckind == 'float' else v for v in nn]
+                fin = [v for v in nums
+                       if v not in (float('inf'), float('-inf'))]
+                if fin:
+                    c['min'] = min(fin)
+                    c['max'] = max(fin)
+            c['max_nulls'] = 0
+            if kind == 'string':
+                c['min_length'] = 1
+                c['max_length'] = 3
+                c['allowed_values'] = [str(v) for v in nn[:2]]
+        fields[name] = c
+    return {'fields': fields}
+
+
+def constraints_doc(tid, cons):
+    """the hand-written constraint documents ('own' comes from the CLI)"""
+    if cons == 'tight':
+        return tight_constraints(tid)
+    if cons.startswith('ty:'):
+        _, kind, variant = cons.split(':')
+        return retyped_constraints(tid, kind, variant)
+    raise ValueError(cons)
+
+
 # ------------------------------------------------------------ flag alphabets
 
 DISCOVER_FLAGS = [[], ['-r'], ['-R'], ['--rex'], ['--norex'], ['-7'],
@@ -171,6 +218,69 @@ DETECT_SHARED = [['-7'], ['--epsilon', '0.01'], ['-t', 'strict']]
 DETECT_EXTRA = [['--output-fields', '@0', '@1'], ['--output-fields', '@1', '@0'],
                 ['-t', 'sloppy'], ['--ascii'], ['--epsilon', '0'],
                 ['-a'], ['-f']]
+
+# flags combined with every ordered list of names given to --output-fields
+OUTFIELD_WITH = [[], ['--no-per-constraint'], ['--index'], ['--interleave'],
+                 ['--write-all']]
+
+# Histories: commands run BEFORE the observed one, in the same process, on
+# the same file (console.main_with_argv is the documented in-process entry;
+# the statement gives every invocation the same meaning whatever ran before).
+# step = {cmd, flags, cons, out, data}; data='other' = the step runs while
+# the file (same name) still holds another table, and is rewritten afterwards.
+def hstep(cmd, cons=None, flags=(), out=None, data=None):
+    s = {'cmd': cmd, 'flags': [list(g) for g in flags]}
+    if cons is not None:
+        s['cons'] = cons
+    if out is not None:
+        s['out'] = out
+    if data is not None:
+        s['data'] = data
+    return s
+
+
+H_STEPS = [
+    hstep('discover', out='file'),
+    hstep('discover', flags=[['-r']], out='-'),
+    hstep('discover', out='-', data='other'),
+    hstep('verify', 'own'),
+    hstep('verify', 'tight'),
+    hstep('verify', 'ty:bool:plain'),
+    hstep('verify', 'ty:string:limits'),
+    hstep('detect', 'tight', out='csv'),
+    hstep('detect', 'ty:bool:plain', out='csv'),
+    hstep('detect', 'ty:string:plain', flags=[['--write-all']], out='parquet'),
+]
+# the steps used where two of them precede the observed command
+H_STEPS2 = [H_STEPS[i] for i in (0, 3, 5, 6, 7)]
+# observed (last) commands: keyword arguments of case()
+H_FINALS = [
+    dict(cmd='discover', out='file'),
+    dict(cmd='discover', flags=[['-r']], out='-'),
+    dict(cmd='verify', cons='own'),
+    dict(cmd='verify', cons='tight'),
+    dict(cmd='verify', cons='ty:bool:plain'),
+    dict(cmd='detect', cons='tight', out='csv'),
+    dict(cmd='detect', cons='own', out='csv'),
+    dict(cmd='detect', cons='ty:string:plain', out='-'),
+]
+H_FINALS2 = [H_FINALS[i] for i in (0, 2, 3, 6)]
+
+
+def hcase(t, fmt, pre, fin):
+    fin = dict(fin)
+    c = case(fin.pop('cmd'), t, fmt, fin.pop('flags', ()), **fin)
+    c['pre'] = [dict(s) for s in pre]
+    return c
+
+
+def step_label(s):
+    lab = s['cmd']
+    if s.get('cons'):
+        lab += '(%s)' % s['cons']
+    if s.get('data'):
+        lab += '@' + s['data']
+    return lab
 
 
 def _optname(group):
@@ -242,7 +352,17 @@ class C17(Check):
             '(missing input; missing / implied-missing / underivable '
             'constraints; 3 unknown flags before and after the positionals; '
             'detect-only flags given to verify/discover; 2 contradictory '
-            'pairs in both orders) alone and with one valid flag; a defined '
+            'pairs in both orders) alone and with one valid flag; verify / '
+            'detect against hand-written constraints that declare ONE type '
+            '(bool, int, real, string, date, [int, real]) for every column '
+            'whatever its dtype, plain or with the column\'s own limits, x '
+            '{csv, parquet, stdin} x {explicit, implied} x output x {-, -t '
+            'sloppy}; detect --output-fields with every ordered list of 2 / 3 '
+            'column names x 5 flag sets x 3 outputs; histories: 1 (every '
+            'table) or 2 (core tables) earlier commands out of 10 (discover, '
+            'verify, detect with own / violated / re-typed constraints, the '
+            'file rewritten in between) run in the same process on the same '
+            'file before each of 8 observed commands; a defined '
             'subset re-run as real `python -m tdda.constraints.console` '
             'subprocesses; thorough adds unicode/space and absolute file '
             'names, flags after the positionals, stale output files. '
@@ -273,6 +393,18 @@ class C17(Check):
         'a documented, valid invocation must end with status 0 (clause '
         'valid-invocation-succeeds): read from the second sentence of the '
         'statement, which reserves non-zero status for erroneous invocations',
+        'histories: console.main_with_argv is the documented in-process '
+        'entry point (tdda\'s own command-line tests call it repeatedly in '
+        'one process); the statement gives an invocation one meaning '
+        'whatever ran before it, so the observed command after a history is '
+        'compared with the same reference as alone (library on a frame '
+        'loaded before any command ran). The results of the earlier '
+        'commands are not looked at there (they are observed as single '
+        'commands in the other layers)',
+        'constraints that declare another type than the column has: the '
+        'reference is the library with its documented default (repair=True '
+        'for every input, the command line documents no way to change it); '
+        'what repair then does to the verdicts belongs to C06',
         'file names: data.<ext> in the sandbox cwd (thorough: also a name '
         'with a space and a non-ASCII letter, and absolute paths)',
     ]
@@ -289,6 +421,13 @@ class C17(Check):
              ('errors', 'error menu'),
              ('verify2', 'verify: 2 flags'),
              ('detect2', 'detect: 2 flags (core tables)'),
+             ('types', 'verify/detect: constraints declaring another type '
+                       'than the column has (6 kinds x 2 variants)'),
+             ('outfields', 'detect --output-fields: every ordered list of '
+                           '2 / 3 column names'),
+             ('history2', 'one earlier command on the same file in the same '
+                          'process, then the observed command'),
+             ('history3', 'two earlier commands (core tables)'),
              ('subproc', 'real subprocess bound to the in-process route')]
         if tier == 'thorough':
             L += [('names', 'unicode/space file name, absolute paths, flags after positionals'),
@@ -391,6 +530,54 @@ class C17(Check):
         elif layer == 'errors':
             for c in self.error_cases(tier):
                 yield c
+        elif layer == 'types':
+            for t in T:
+                for fmt in F:
+                    for kind in TYPE_KINDS:
+                        for var in TYPE_VARIANTS:
+                            cons = 'ty:%s:%s' % (kind, var)
+                            for fs in ([], [['-t', 'sloppy']]):
+                                yield case('verify', t, fmt, fs, cons=cons)
+                                yield case('detect', t, fmt, fs, cons=cons,
+                                           out='csv')
+                            yield case('verify', t, fmt, [], cons=cons,
+                                       cmode='implied')
+                            yield case('detect', t, fmt, [], cons=cons,
+                                       out='parquet')
+                            yield case('detect', t, fmt, [['--write-all']],
+                                       cons=cons, out='-')
+                            if fmt == 'csv':
+                                yield case('verify', t, fmt, [], inp='stdin',
+                                           cons=cons)
+                                yield case('detect', t, fmt, [], inp='stdin',
+                                           cons=cons, out='csv')
+        elif layer == 'outfields':
+            for t in T:
+                ncol = len(TABLE[t])
+                if ncol < 2:
+                    continue
+                lists = [p for k in (2, 3) if k <= ncol
+                         for p in itertools.permutations(range(ncol), k)]
+                for fmt in F:
+                    for p in lists:
+                        of = ['--output-fields'] + ['@%d' % i for i in p]
+                        for w in OUTFIELD_WITH:
+                            for out in ('csv', 'parquet', '-'):
+                                yield case('detect', t, fmt,
+                                           [of] + ([w] if w else []), out=out)
+        elif layer == 'history2':
+            for t in T:
+                for fmt in F:
+                    for st in H_STEPS:
+                        for fin in H_FINALS:
+                            yield hcase(t, fmt, [st], fin)
+        elif layer == 'history3':
+            for t in CORE:
+                for fmt in F:
+                    for s1 in H_STEPS2:
+                        for s2 in H_STEPS2:
+                            for fin in H_FINALS2:
+                                yield hcase(t, fmt, [s1, s2], fin)
         elif layer == 'stale':
             for t in T:
                 for fmt in F:
@@ -498,6 +685,10 @@ class C17(Check):
                        out='parquet', **S)
             yield case('detect', t, fmt, [['--write-all'], ['--int']], out='-', **S)
             yield case('detect', t, fmt, [['--output-fields', '@0']], out='csv', **S)
+            yield case('detect', t, fmt, [['--output-fields', '@1', '@0']],
+                       out='csv', **S)
+            yield case('verify', t, fmt, [], cons='ty:string:limits', **S)
+            yield case('detect', t, fmt, [], cons='ty:string:plain', out='csv', **S)
             if fmt == 'csv':
                 yield case('verify', t, fmt, [], inp='stdin', cons='tight', **S)
                 yield case('detect', t, fmt, [['--no-output-fields']],
@@ -668,6 +859,10 @@ class C17(Check):
                         df = own
                 except Exception:
                     same = False
+            if df is not None and not same:
+                # a private copy: nothing the command line does later may
+                # reach the reference through a shared object
+                df = df.copy(deep=True)
             self.framecache[key] = (df, exc, same)
         if exc:
             return None, exc
@@ -703,6 +898,69 @@ class C17(Check):
             return [c['cmd']] + posn + flat + var
         return [c['cmd']] + flat + posn + var
 
+    # -- constraints files ------------------------------------------------
+    def write_constraints(self, cpath, t, fmt, cons, datafile, O):
+        """-> True, or the exception name that made `own` unavailable"""
+        if cons != 'own':
+            with open(cpath, 'w', encoding='utf-8') as f:
+                json.dump(constraints_doc(t, cons), f, ensure_ascii=False,
+                          indent=1)
+            return True
+        ok = (t, fmt)
+        if ok not in self.owncache:
+            r0 = self.cli(['discover', '-r', datafile, cpath], None, 'in')
+            O['evals'] += 1
+            txt = None
+            if r0['code'] == 0 and os.path.exists(cpath):
+                with open(cpath, encoding='utf-8') as f:
+                    txt = f.read()
+            self.owncache[ok] = (txt, r0['exc'])
+        txt, r0exc = self.owncache[ok]
+        if txt is None:
+            return r0exc
+        with open(cpath, 'w', encoding='utf-8') as f:
+            f.write(txt)
+        return True
+
+    # -- history ------------------------------------------------------------
+    def run_prefix(self, c, datafile, prefix, raw, O):
+        """the commands that ran earlier in this process on the same file;
+        their own results are observed elsewhere (as single commands) and are
+        ignored here.  Files they write are named h<i>.*"""
+        fmt = c['fmt']
+        plan = []
+        for i, st in enumerate(c['pre']):
+            argv = [st['cmd']] + [x for g in st['flags'] for x in g]
+            if st['cmd'] == 'discover':
+                argv.append(datafile)
+                if st.get('out') is not None:
+                    argv.append('-' if st['out'] == '-'
+                                else prefix + 'h%d.tdda' % i)
+            else:
+                cp = prefix + 'h%d.tdda' % i
+                # written before the first step runs, so that deriving `own`
+                # is never a command in the middle of the history
+                if self.write_constraints(cp, c['t'], fmt, st['cons'],
+                                          datafile, O) is not True:
+                    continue
+                argv += [datafile, cp]
+                if st['cmd'] == 'detect':
+                    argv.append(prefix + 'h%d.%s' % (i, st['out']))
+            plan.append((st, argv))
+        swapped = False
+        for st, argv in plan:
+            want = st.get('data') == 'other'
+            if want != swapped:
+                other = TIDS[(TIDS.index(c['t']) + 1) % len(TIDS)]
+                with open(datafile, 'wb') as f:
+                    f.write(self.data_bytes(other, fmt) if want else raw)
+                swapped = want
+            self.cli(argv, None, 'in')
+            O['evals'] += 1
+        if swapped:
+            with open(datafile, 'wb') as f:
+                f.write(raw)
+
     # -- one observation -------------------------------------------------
     def observe(self, c):
         """-> dict(mism=[(clause, detail)], tag, unspec, evals, nontrivial)"""
@@ -731,29 +989,13 @@ class C17(Check):
                 cpath = names['constraints'] = prefix + 'c.tdda'
             elif c['inp'] == 'file':
                 cpath = prefix + stem + '.tdda'     # where it will be implied
-            if cpath and c['cons'] == 'tight':
-                with open(cpath, 'w', encoding='utf-8') as f:
-                    json.dump(tight_constraints(c['t']), f, ensure_ascii=False,
-                              indent=1)
-            elif cpath and c['cons'] == 'own':
-                ok = (c['t'], fmt)
-                if ok not in self.owncache:
-                    r0 = self.cli(['discover', '-r', datafile, cpath], None, 'in')
-                    O['evals'] += 1
-                    txt = None
-                    if r0['code'] == 0 and os.path.exists(cpath):
-                        with open(cpath, encoding='utf-8') as f:
-                            txt = f.read()
-                    self.owncache[ok] = (txt, r0['exc'])
-                txt, r0exc = self.owncache[ok]
-                if txt is not None:
-                    with open(cpath, 'w', encoding='utf-8') as f:
-                        f.write(txt)
-                r0 = {'code': 0 if txt is not None else 1, 'exc': r0exc}
-                if r0['code'] != 0 or not os.path.exists(cpath):
+            if cpath and c['cons'] != 'absent':
+                r0exc = self.write_constraints(cpath, c['t'], fmt, c['cons'],
+                                               datafile, O)
+                if r0exc is not True:
                     # discovery itself fails on this frame (library defect
                     # outside C17, see both-raise in the discover cases)
-                    O['tag'] = '%s:own-constraints-unavailable:%s' % (cmd, r0['exc'])
+                    O['tag'] = '%s:own-constraints-unavailable:%s' % (cmd, r0exc)
                     O['unspec'] += 1
                     return O
         # output
@@ -773,8 +1015,15 @@ class C17(Check):
                                            else 'L.csv')):
                 with open(pth, 'w') as f:
                     f.write('stale,junk\n1,2\n')
-        before = self.listing()
         spec = cli_spec.interpret(argv, os.path.exists)
+        if spec['verdict'] == cli_spec.OK:
+            # the reference is "the DataFrame loaded from that file": taken
+            # before any command has run on it, never after
+            self.reference_frame((c['t'], fmt, c['name'], stdin_text is not None),
+                                 datafile, stdin_text, [])
+        if c.get('pre'):
+            self.run_prefix(c, datafile, prefix, raw, O)
+        before = self.listing()
         r = self.cli(argv, stdin_text, c['route'])
         O['evals'] += 1
         if r.get('killed'):
@@ -1055,6 +1304,29 @@ class C17(Check):
             attempt(dict(cur, route='in'))
         if cur.get('stale'):
             attempt(dict((k, v) for k, v in cur.items() if k != 'stale'))
+        if cur.get('pre'):
+            # first the whole history, then one earlier command at a time
+            if attempt(dict((k, v) for k, v in cur.items() if k != 'pre')):
+                pass
+            else:
+                i = 0
+                while len(cur['pre']) > 1 and i < len(cur['pre']):
+                    cand = dict(cur, pre=cur['pre'][:i] + cur['pre'][i + 1:])
+                    if not attempt(cand):
+                        i += 1
+                # each remaining earlier command in its plainest form
+                for i in range(len(cur['pre'])):
+                    st = cur['pre'][i]
+                    for k, v in (('flags', []), ('out', 'csv'),
+                                 ('cons', (st.get('cons') or '').rsplit(':', 1)[0]
+                                  + ':plain')):
+                        if k not in st or st[k] == v or \
+                                (k == 'cons' and not st[k].startswith('ty:')) or \
+                                (k == 'out' and st['cmd'] != 'detect'):
+                            continue
+                        attempt(dict(cur, pre=cur['pre'][:i] + [dict(st, **{k: v})]
+                                     + cur['pre'][i + 1:]))
+                        st = cur['pre'][i]
         if cur['flags'] and not attempt(dict(cur, flags=[])):
             changed = len(cur['flags']) > 1
             while changed and cur['flags']:
@@ -1074,10 +1346,18 @@ class C17(Check):
                 attempt(dict(cur, cmode='explicit', out='csv'))
                 continue
             attempt(dict(cur, **{k: v}))
+        if cur['cons'].startswith('ty:') and not cur['cons'].endswith(':plain'):
+            attempt(dict(cur, cons=cur['cons'].rsplit(':', 1)[0] + ':plain'))
         return cur, evals
 
     @staticmethod
     def sig(c, clause, root=None):
+        if c.get('pre'):
+            # the (minimised) history is needed to see the disagreement: the
+            # root cause is what the earlier command(s) left behind for this
+            # command, whichever clause then notices it
+            return 'history:%s:after=%s' % (
+                c['cmd'], '>'.join(step_label(s) for s in c['pre']))
         parts = [c['cmd'], clause]
         if clause == 'discover-then-verify-no-failures':
             # same root cause whether reached from discover or from verify
